@@ -224,6 +224,16 @@ fn exec_ops(ops: &[Op], m: &mut TaskModel) {
                 crate::tr!("t{}: install hook", m.task);
                 kernel::count("c19.install");
                 panic_catcher_set_hook();
+                // once set_hook has returned to *this* caller the hook must be in place (the caller is entitled to
+                // rely on the property's precondition from here on), whoever installed it
+                let hs = hook_state();
+                if hs != HookState::Installed {
+                    kernel::fail(v(
+                        "set-hook-returned-early",
+                        format!("{hs:?}"),
+                        format!("task {}: panic_catcher_set_hook() returned while the catcher's hook is {hs:?} (another task is still inside the installation)", m.task),
+                    ));
+                }
             }
             Op::SetFallbackContinue => {
                 let prev = panic_catcher_set_fallback_mode(PanicCatcherFallbackMode::Continue);
